@@ -3,8 +3,18 @@ use crate::outcome::Outcome;
 use crate::util::Args;
 use std::time::{Duration, Instant};
 
+pub mod c01;
 pub mod c02;
 pub mod c03;
+pub mod c04;
+pub mod c05;
+pub mod c06;
+pub mod c09;
+pub mod c10;
+pub mod c14;
+pub mod c18;
+#[cfg(feature = "bulk")]
+pub mod c19;
 
 #[derive(Clone, Debug)]
 pub struct Ctx {
@@ -45,8 +55,18 @@ impl Ctx {
 
 pub fn dispatch(name: &str, ctx: &Ctx) -> Option<Outcome> {
     Some(match name {
+        "c01" => c01::run(ctx),
         "c02" => c02::run(ctx),
         "c03" => c03::run(ctx),
+        "c04" => c04::run(ctx),
+        "c05" => c05::run(ctx),
+        "c06" => c06::run(ctx),
+        "c09" => c09::run(ctx),
+        "c10" => c10::run(ctx),
+        "c14" => c14::run(ctx),
+        "c18" => c18::run(ctx),
+        #[cfg(feature = "bulk")]
+        "c19" => c19::run(ctx),
         _ => return None,
     })
 }
